@@ -1,0 +1,10 @@
+//go:build verif
+
+package codescan
+
+// Read-only accessors for the verification harness (build tag `verif`). Nothing here is compiled into a normal build.
+
+// VerifRemoveIndent exposes removeIndent (works on a copy of its argument).
+func VerifRemoveIndent(lines []string) []string {
+	return removeIndent(append([]string{}, lines...))
+}
